@@ -288,6 +288,10 @@ pub fn run(ctx: &Ctx) -> (Spec, Report) {
                 .filter(|l| !(m.generic && matches!(m.position, "struct-variant-field" | "payload" | "alias") && matches!(l, LangId::Go)))
                 .map(|l| {
                     let mut c = LangCfg::basic(*l);
+                    // where Scala puts its helper aliases depends on the shape of the package name
+                    if *l == LangId::Scala {
+                        c.package = rng.pick(&["com.verif.gen", "com.verif.gen", "pkg", "two.parts"]).to_string();
+                    }
                     if trigger == "Vec<u8>" {
                         let mut tm = HashMap::new();
                         match l {
@@ -451,7 +455,7 @@ pub fn run(ctx: &Ctx) -> (Spec, Report) {
     let _ = std::fs::remove_dir_all(&scratch);
     let spec = Spec {
         level: "exploration",
-        rule: format!("one trigger type out of {{(), u8, u16, u32, U53, OffsetDateTime, mapped Vec<u8>, generic T, HashMap<String,u8>, HashMap<u16,String>, HashMap<u32,Vec<bool>> (the helper-needing type only as a map key)}} at one position out of {{field, struct-variant field, payload, alias, generic argument, skipped field (PhantomData)}} under 0-3 random wrappers, plain / with serde(default) / with a type override for one of kotlin, swift, typescript, scala, go on the subject field (all {n_grid} combinations), then random placements up to depth 4 with other triggers combined; for each backend the names it introduces are collected from the parsed output and must be defined or imported in the same file (Swift CodableVoid, Scala UByte..ULong, Go package selectors / encoding/json, Kotlin serialization imports, TS reviver/replacer pair, its key tests, and conversely a key test for every field whose whole type is Date (bare, optional, doubly optional), every Python name via CPython ast + import under stub pydantic); {n_cli} multi-crate Swift runs of the real binary check Codable.swift and {n_py} multi-crate Python runs resolve every name of every generated file separately (the backend object is shared by the files of one run); distinct = (language, trigger, position, depth class, combined?)"),
+        rule: format!("one trigger type out of {{(), u8, u16, u32, U53, OffsetDateTime, mapped Vec<u8>, generic T, HashMap<String,u8>, HashMap<u16,String>, HashMap<u32,Vec<bool>> (the helper-needing type only as a map key)}} at one position out of {{field, struct-variant field, payload, alias, generic argument, skipped field (PhantomData)}} under 0-3 random wrappers, plain / with serde(default) / with a type override for one of kotlin, swift, typescript, scala, go on the subject field (all {n_grid} combinations), then random placements up to depth 4 with other triggers combined; Scala under dotted and single-segment packages; for each backend the names it introduces are collected from the parsed output and must be defined or imported in the same file (Swift CodableVoid, Scala UByte..ULong, Go package selectors / encoding/json, Kotlin serialization imports, TS reviver/replacer pair, its key tests, and conversely a key test for every field whose whole type is Date (bare, optional, doubly optional), every Python name via CPython ast + import under stub pydantic); {n_cli} multi-crate Swift runs of the real binary check Codable.swift and {n_py} multi-crate Python runs resolve every name of every generated file separately (the backend object is shared by the files of one run); distinct = (language, trigger, position, depth class, combined?)"),
         assumptions: vec![
             "TypeScript: the decisive form is the weak one (helpers come in pairs and test existing keys); a Date/Uint8Array type without helpers is counted, not reported, because the generated code never uses the helper names itself".into(),
         ],
